@@ -888,6 +888,24 @@ func vc11Hist(f []string) string {
 	}
 	sort.Slice(avs, func(i, j int) bool { return vc11LeaseLess(avs[i], avs[j]) })
 	out = append(out, "avail=["+strings.Join(avs, ";")+"]")
+	// the contents of the free lists (last 3 bytes of each address are enough inside a pool)
+	fr := reg.VerifC11Free()
+	var frs []string
+	for _, k := range allocator.VerifC11SortedKeys(av) {
+		p := strings.SplitN(k, "/", 2)
+		var l []string
+		for _, a := range fr[k] {
+			b := a.AsSlice()
+			if p[0] == "7" {
+				b = b[:8] // delegated prefixes are at most /64
+			}
+			l = append(l, fmt.Sprintf("%x", b[len(b)-3:]))
+		}
+		sort.Strings(l) // as a set: the order only decides which address Allocate hands out next
+		frs = append(frs, fmt.Sprintf("%s/%d/=%s", p[0], vc11Idx(p[1], "p/n"), strings.Join(l, ",")))
+	}
+	sort.Slice(frs, func(i, j int) bool { return vc11LeaseLess(frs[i], frs[j]) })
+	out = append(out, "free=["+strings.Join(frs, ";")+"]")
 
 	// property-level monitors: standby store == live set; standby leases == addresses of the live set
 	var exp []string
